@@ -15,6 +15,16 @@ def _variant_name(variants, val):
     return None
 
 
+_STRIP = {"str::strip_prefix": "str::starts_with", "str::strip_suffix": "str::ends_with"}
+
+
+def _variant_fact(x, name, pol):
+    """`x.strip_prefix(p)` is Some exactly when `x.starts_with(p)` (same for suffix)."""
+    if x[0] == "call" and x[1] in _STRIP and len(x[2]) == 2 and name in ("Some", "None"):
+        return (("b", ("call", _STRIP[x[1]], x[2])), pol == (name == "Some"))
+    return (("variant", x, name), pol)
+
+
 def lit_to_facts(lit):
     """Convert a Sym edge literal into a list of facts (conjunction)."""
     kind, term, val = lit[0], lit[1], lit[2]
@@ -25,7 +35,7 @@ def lit_to_facts(lit):
         if kind == "is":
             n = _variant_name(variants, val)
             if n is not None:
-                return [(("variant", x, n), True)]
+                return [_variant_fact(x, n, True)]
             return [(("inteq", term, val), True)]
         # isnot a set of values
         names = [_variant_name(variants, v) for v in val]
@@ -33,8 +43,8 @@ def lit_to_facts(lit):
         if variants and not rest:
             return [(("false",), True)]   # `otherwise` edge of an exhaustive match: unreachable
         if len(rest) == 1:
-            return [(("variant", x, rest[0]), True)]
-        return [(("variant", x, n), False) for n in names if n is not None]
+            return [_variant_fact(x, rest[0], True)]
+        return [_variant_fact(x, n, False) for n in names if n is not None]
     # boolean switch: 0 = false
     if kind == "is" and val == "0":
         return bool_facts(term, False)
